@@ -76,3 +76,18 @@ Lemma bind_condition_glue :
   map snd GenFields.encrypted_bind_plain_conditions =
   [PublicView.encrypted_bind_plain_condition; PublicView.encrypted_bind_plain_condition].
 Proof. reflexivity. Qed.
+
+(* wallet level: the path tables interpreted by the wallet model are the regenerated ones (Wallet.public_master,
+   Wallet.wif), the bodies of HDKey.public_master / WalletKey.key / as_json are the frozen ones, and every
+   export / view entry point still leaves the private material out by default (argument lists) *)
+Lemma wallet_paths_glue :
+  GenFields.wallet_public_master_paths = PublicView.wallet_public_master_paths /\
+  GenFields.wallet_wif_paths = PublicView.wallet_wif_paths.
+Proof. split; reflexivity. Qed.
+Lemma method_bodies_glue :
+  GenFields.hdkey_public_master_paths = PublicView.hdkey_public_master_paths /\
+  GenFields.walletkey_key_paths = PublicView.walletkey_key_paths /\
+  GenFields.as_json_paths = PublicView.as_json_paths.
+Proof. repeat split; reflexivity. Qed.
+Lemma export_signatures_glue : GenFields.export_signatures = PublicView.export_signatures.
+Proof. reflexivity. Qed.
